@@ -350,7 +350,7 @@ func checkKey(c *keyCase) (string, string) {
 		k, m, _ := checkAddr(&addrCase{Kind: "dilithium-pk", PK: pk[:]})
 		return k, m
 	}
-	if c.AddrFormat != 0 {
+	if c.Scheme == "xmss" && c.AddrFormat != 0 {
 		// a key object whose descriptor names an unsupported address format can be constructed; deriving its address
 		// must be refused on EVERY call (first, second, after other getters), never answered with some other value
 		var x *xmss.XMSS
@@ -381,7 +381,7 @@ func checkKey(c *keyCase) (string, string) {
 		// key, its extended seed and its address: every field value must survive (signature-type nibble 0..15 included;
 		// the third byte is not part of any field and comes back as 0)
 		var es [common.ExtendedSeedSize]uint8
-		d := codecref.Desc(c.Hash, c.SigType, uint(c.H), 0)
+		d := codecref.Desc(c.Hash, c.SigType, uint(c.H), c.AddrFormat)
 		copy(es[:], d[:])
 		es[2] = c.Third
 		copy(es[3:], c.Seed)
@@ -396,6 +396,16 @@ func checkKey(c *keyCase) (string, string) {
 		es[2] = 0
 		if back != es {
 			return "key/extended-seed-roundtrip", fmt.Sprintf("GetExtendedSeed() starts with %x, the key was built from %x", back[:3], es[:3])
+		}
+		if c.AddrFormat != 0 {
+			// an undefined address format: the key exists, its address does not
+			var a [20]byte
+			if o := ev.Try(func() { a = x.GetAddress() }); !o.Panicked {
+				return "key/unsupported-format-address-derived", fmt.Sprintf("GetAddress on a key built from an extended seed with address format %d returned %x instead of refusing", c.AddrFormat, a)
+			} else if !o.IsString {
+				return "key/unsupported-format-fault", o.String()
+			}
+			return "", ""
 		}
 		if a, w := x.GetAddress(), codecref.XMSSAddress(pk[:]); a != w || a[0] != d[0] || a[1] != d[1] {
 			return "key/extended-seed-address", fmt.Sprintf("GetAddress = %x, reference %x (descriptor given: %x)", a, w, d[:2])
@@ -438,6 +448,9 @@ func TestKeyObjects(t *testing.T) {
 			c.H = rapid.SampledFrom([]int{4, 4, 4, 6}).Draw(rt, "h")
 			c.SigType = uint(rapid.SampledFrom([]int{0, 0, 1, 2, 7, 8, 15, -1}).Draw(rt, "sigType") & 15)
 			c.Third = rapid.SampledFrom([]uint8{0, 0, 1, 0x80, 0xff}).Draw(rt, "third")
+			if rapid.IntRange(0, 3).Draw(rt, "oddFormat") == 0 {
+				c.AddrFormat = uint(rapid.IntRange(1, 15).Draw(rt, "af"))
+			}
 			r.Count(fmt.Sprintf("extended_seed_keys_sigtype_%d", c.SigType), 1)
 		}
 		if c.Scheme == "xmss" {
